@@ -16,7 +16,7 @@ RULE = (
     "case = callback signature built as source text from a drawn parameter list (0-2 positional-only, 0-3 positional-or-keyword, optional *args, "
     "0-3 keyword-only, optional **kwargs, defaults on any legal suffix, names drawn from the built-ins event_data/event/source/target/state/model/"
     "machine/transition and user names) x callback kind (method on machine / model / listener, free function, functools.partial, functools.wraps-decorated method, coroutine) x "
-    "group (before/on/after/enter/exit/validators/cond) x 6-8 call shapes (0-4 positional arguments, keyword arguments from user names and "
+    "group (before/on/after/enter/exit/validators/cond, also as operand of a guard expression: 'not f', 'g and f', '!g or f', unless='f') x 6-8 call shapes (0-4 positional arguments, keyword arguments from user names and "
     "RESERVED names carrying decoy values; sent directly or forwarded by a parent callback with its own *args/**kwargs). Oracle = independent "
     "40-line binder implementing the statement with the pairing rule pinned by tests/test_signature.py; observed = locals() recorded by the "
     "callback (built-ins are checked by identity: machine is sm, event == the event being processed ...). Second family: two callables with the "
@@ -140,7 +140,7 @@ def traced(f):
 def build(sig, kind, group, prov, fname, qual_prefix):
     """-> (sm, trigger name). The callback is attached to event 'go' on a single self-looping state."""
     src = sig_source(sig, fname, kind)
-    env = {"SEEN": SEEN, "RET": True if group == "cond" else "r"}
+    env = {"SEEN": SEEN, "RET": True if group.startswith("cond") else "r"}
     exec(src, env)
     f = env[fname]
     f.__qualname__ = f"{qual_prefix}.{fname}"
@@ -158,7 +158,15 @@ def build(sig, kind, group, prov, fname, qual_prefix):
         holder[fname] = f
     ref = inline if inline is not None else fname
     kw = {}
-    if group in ("before", "on", "after", "validators", "cond"):
+    if group in ("cond-not", "cond-and", "cond-or", "unless-name"):
+        # the callback is named inside a guard *expression*: operands are called with the same argument injection
+        holder[fname] = f
+        holder["other_guard"] = lambda self: True
+        if inline is not None:
+            raise ValueError("expression operands are looked up by name")
+        expr = {"cond-not": f"not {fname}", "cond-and": f"other_guard and {fname}", "cond-or": f"!other_guard or {fname}", "unless-name": fname}[group]
+        ns["go"] = ns["s"].to.itself(**({"unless": expr} if group == "unless-name" else {"cond": expr}))
+    elif group in ("before", "on", "after", "validators", "cond"):
         kw[group] = ref
         ns["go"] = ns["s"].to.itself(**kw)
     else:
@@ -183,7 +191,7 @@ def build(sig, kind, group, prov, fname, qual_prefix):
     cls = types.new_class(f"{qual_prefix}", (StateMachine,), {}, lambda d: d.update(ns))
     Model = type(f"{qual_prefix}_model", (), mns)
     L = type(f"{qual_prefix}_listener", (), lns)
-    sm = cls(Model(), listeners=[L()])
+    sm = cls(Model(), listeners=[L()], allow_event_without_transition=True)
     if is_async:
         sm.activate_initial_state()
     return sm
@@ -307,7 +315,9 @@ def cases(draw, tier):
         variants = [{"sig": draw(signature(names=names)), "cbkind": k, "prov": draw(st.sampled_from(["machine", "model", "listener"]))} for k in kinds]
         return {"kind": "collide", "variants": variants, "calls": [draw(call_shape(forwarded_ok=False)) for _ in range(4)]}
     cbkind = draw(st.sampled_from(["method", "method", "method", "function", "partial", "async-method", "async-function", "wrapped"]))
-    group = draw(st.sampled_from(["on", "on", "before", "after", "enter", "exit", "validators", "cond"]))
+    group = draw(st.sampled_from(["on", "on", "before", "after", "enter", "exit", "validators", "cond", "cond-not", "cond-and", "cond-or", "unless-name"]))
+    if group in ("cond-not", "cond-and", "cond-or", "unless-name"):
+        cbkind = draw(st.sampled_from(["method", "method", "wrapped"]))
     return {"kind": "single", "sig": draw(signature()), "cbkind": cbkind, "group": group, "prov": draw(st.sampled_from(["machine", "model", "listener"])),
             # state-level callbacks also run for the forwarding event itself: forwarding is exercised on transition-level groups
             "calls": [draw(call_shape(forwarded_ok=group not in ("enter", "exit"))) for _ in range(6 if tier == "quick" else 8)]}
